@@ -3,7 +3,7 @@ CONSTANTS
   MaxDepth = 2
   MaxNodes = 1
   MaxInj = 2
-  HSets <- HSetsAll
+  HSets <- HSetsWide
   CMs = {"no", "sup", "raise"}
   Kinds = {"try", "tf", "with", "loop", "seq"}
   Leaves = {"raise", "from", "reraise", "ret", "brk", "cnt", "quiet"}
